@@ -454,6 +454,11 @@ def run(c):
         for i, h in enumerate(hs):
             if i % 3 == 1:
                 h["update_window"] = ["7 day", "1 month", "2 day"][(i // 3) % 3]
+        # every fifth generated history happens 75 years later (rows dated 2099: after any wall clock this check will ever run under) -- the guarantees do not depend on
+        # where the data lies relative to "now"
+        for i, h in enumerate(hs):
+            if i >= len(hs) - n_hist and i % 5 == 2:
+                h["ops"] = [(op[0], [(r[0], r[1] + 27398, r[2], r[3]) for r in op[1]]) + tuple(op[2:]) if op[0] == "append" else op for op in h["ops"]]
         model_ok = lib.coq_make(["Model/Refresh.vo", "Base/Calendar.vo"])[0]
         all_steps = [run_impl(h, workdir) for h in hs]          # the implementation first: calendar lookbacks get their day counts from the run
         traces = None
